@@ -20,6 +20,9 @@ CLAIMED = {
     "C05": ("property-based differential testing: deadlock reachability in the R-SC interleaving reference vs loom's deadlock report",
             "Bounded generated-program exploration over blocking primitives: the model run must panic with `deadlock` iff the reference reaches a state with an unfinished thread and no enabled thread; the partial trace at the report must replay to a reference deadlock state; no other panic may occur.",
             "Trusts R-SC blocking semantics; findings F5a/F5d/F5e (park token), F2/F2b, F9 attributed by class.", "4/C05"),
+    "C06": ("property-based fault injection: generated programs with planted failures run in a child process, followed by a sentinel model in the same process; verdicts from the R-SC reference",
+            "Generated (program, fault site, fault kind, context) cases: the failure must come out of `check` as a panic with the injected / documented message iff the reference says one is reachable (soundness; unconditional faults must fail), the process must survive, and a later model run in the same process must behave exactly as in a fresh process.",
+            "Whether a failure that exists only in some schedule is found is left to C01/C05/C10; trusts R-SC reachability.", "4/C06"),
     "C07": ("property-based testing: trace validation of every loom iteration on a reference lock machine + L == SC + race verdicts from reference vector clocks",
             "Bounded generated-program exploration over <=2 mutexes and an rwlock with try-operations and cells inside/outside critical sections: exclusion, reader/writer compatibility, blocking, try_* exactness, protected values and hand-over happens-before (via loom's own race detector, both directions) are checked on every iteration.",
             "Trusts R-SC; F9 (try_* never observes a held lock across threads) and F11 (writes under read guards) attributed by class.", "4/C07"),
